@@ -14,6 +14,8 @@ Every `static` of rsass/src (inventory checked against the source on every run b
 The built-in module scopes are `&'static Scope`s whose maps sit behind `Mutex`es, i.e. they
 ARE mutable in principle; what keeps them constant is the code paths modelled here:
 * `variablescope.rs` `Scope::set_variable`, module-path branch (`ns.$x: v`): `assign`
+  (the non-module branch delegates to `Scope::assign` — which walks up the parent chain of
+  the USER scope; built-in module scopes are nobody's parent — or to `define_global`)
 * `output/transform.rs` `Item::Use` / `Item::Forward` with a `with (...)` clause: `use`, `forward`
 * `sass/mixin.rs` `MixinDecl::LoadCss`: `loadCss`
 * `@use "sass:m" as *` (`Scope::expose_star` copies INTO the user's scope): `useStar`
